@@ -165,6 +165,8 @@ type State struct {
 	clockFrozen bool
 	preempts int
 	initMode bool
+	initStack []*ssa.Package        // packages whose variable initialisers are running (innermost last)
+	pkgInit   map[*ssa.Package]bool // packages whose initialisers have run (or are running) on this path
 	timersFrozen bool
 	model    *Model
 	modelLen int
@@ -246,6 +248,9 @@ func (st *State) stackTrace() []string {
 func (st *State) decide(kind string, alts []int64) int64 {
 	if len(alts) == 0 {
 		panic(pathAbort{kind: "INFEASIBLE", msg: "no alternative for " + kind})
+	}
+	if st.initMode || len(st.initStack) > 0 {
+		return alts[0] // package initialisers run deterministically (no forks are recorded)
 	}
 	i := len(st.decisions)
 	if i < len(st.prefix) {
@@ -523,6 +528,14 @@ func (st *State) globalObj(g *ssa.Global) *Object {
 	et := g.Type().(*types.Pointer).Elem()
 	o := st.newObject(st.zero(et), et, "global "+g.String())
 	st.globals[g] = o
+	if p := g.Pkg; p != nil && st.eng.initOK[p] && !st.pkgInit[p] {
+		defer func() {
+			if !st.pkgInit[p] {
+				st.pkgInit[p] = true
+				st.lazyInit(p)
+			}
+		}()
+	}
 	// error-typed sentinels get a distinct opaque value lazily
 	if types.Identical(et, errorType) {
 		o.V = st.opaqueError("global:" + g.String())
